@@ -455,8 +455,52 @@ def check_subgraph_search():
                 seen.add(tuple(nodes))
 
 
+def check_sample_postprocessing():
+    """apps/sample.py: postselect keeps exactly the samples whose total count lies in [min, max], in order; modes_from_counts
+    lists mode i exactly s[i] times, sorted; to_subgraphs turns the clicked MODES into the NODES found at those positions of
+    graph.nodes (mode i <-> row i of the adjacency matrix the device was given) - for default labels, strings, squares and
+    integer labels 0..n-1 in a permuted order; every sample in {0,1,2}^n, n <= 4, and some longer ones"""
+    import networkx as nx
+    from strawberryfields.apps import sample as smp
+    for n in (1, 2, 3, 4):
+        samples = [list(t) for t in itertools.product(range(3), repeat=n)]
+        for lo, hi in ((0, 0), (1, 2), (2, 2), (0, 2 * n), (3, 1)):
+            EVAL[0] += 1
+            got = smp.postselect(samples, lo, hi)
+            want = [t for t in samples if lo <= sum(t) <= hi]
+            if got != want:
+                bad("-", f"postselect(all samples in {{0,1,2}}^{n}, {lo}, {hi}) keeps {len(got)} samples, {len(want)} have a total count in the range (or the order changed)")
+        for t in samples:
+            EVAL[0] += 1
+            got = smp.modes_from_counts(t)
+            want = [i for i, c in enumerate(t) for _ in range(c)]
+            if list(got) != want:
+                bad("-", f"modes_from_counts({t}) = {list(got)}, expected {want}")
+        labelings = {"default": list(range(n)), "strings": [f"v{i}" for i in range(n)], "squares": [i * i + 7 for i in range(n)],
+                     "reversed integers": list(range(n))[::-1], "rotated integers": [(i + 1) % n for i in range(n)]}
+        for lab, nodes in labelings.items():
+            g = nx.Graph()
+            g.add_nodes_from(nodes)
+            g.add_edges_from((nodes[i], nodes[j]) for i in range(n) for j in range(i + 1, n) if (i + j) % 2)
+            EVAL[0] += 1
+            got = smp.to_subgraphs(samples, g)
+            for t, sub in zip(samples, got):
+                want = sorted((nodes[i] for i, c in enumerate(t) if c > 0), key=str)
+                if sorted(sub, key=str) != want:
+                    bad("-", f"to_subgraphs: graph with nodes {nodes} ({lab}), sample {t}: clicked modes are the nodes {want}, returned {sub}")
+                    break
+    g = nx.Graph()
+    g.add_nodes_from([4, 2, 0, 5, 1, 3])
+    g.add_edges_from([(4, 2), (4, 0), (4, 5), (2, 0), (2, 5), (0, 5), (1, 3)])
+    EVAL[0] += 1
+    for t, want in (([1, 1, 1, 1, 0, 0], [0, 2, 4, 5]), ([1, 0, 0, 0, 0, 2], [3, 4]), ([0, 0, 0, 1, 1, 1], [1, 3, 5])):
+        got = smp.to_subgraphs([t], g)[0]
+        if sorted(got) != want:
+            bad("-", f"to_subgraphs: graph with nodes [4, 2, 0, 5, 1, 3], sample {t}: clicked modes are the nodes {want}, returned {got}")
+
+
 if __name__ == "__main__":
-    for f in (check_orbits, check_cardinalities, check_conversions, check_graph_helpers, check_subgraph_search):
+    for f in (check_orbits, check_cardinalities, check_conversions, check_graph_helpers, check_subgraph_search, check_sample_postprocessing):
         try:
             f()
         except Exception as e:
